@@ -324,7 +324,7 @@ class ModelCompiler:
                         for cell_address in row:
                             if cell_address not in self.model.cells.keys():
                                 self.model.cells[cell_address] = \
-                                    xltypes.XLCell(cell_address, '')
+                                    xltypes.XLCell(cell_address, None)
 
             if formula in self.model.cells:
                 self.model.cells[formula].formula.associated_cells = \
